@@ -369,8 +369,8 @@ PROPS = {
   "explanation": "Inv = active liquidity / tick gross+net / stored-tick set / price-tick agreement / empty pool / id uniqueness, preserved by every op incl. the swap loop; reachable_inv by induction",
  },
  "C10": {
-  "modules": ["OsmoVerif.Props.C10", "OsmoVerif.Props.TieGenTwap"],
-  "min_theorems": 38,
+  "modules": ["OsmoVerif.Props.C10", "OsmoVerif.Props.C10Geom", "OsmoVerif.Props.TieGenTwap"],
+  "min_theorems": 60,
   "fingerprints": ["Twap.*"],
   "engines": [{"name": "twap", "kind": "app", "n": {"quick": 5000, "thorough": 40000}, "shards": {"quick": 4, "thorough": 16}, "env": NO_EXPORT_IMPORT}],
   "rule": "two kinds of histories, half of the op budget each.  SINGLE-POOL: a fresh balancer (2 or 3 assets; random / unit / power-of-two / extreme balances and weights) or "
@@ -396,15 +396,22 @@ PROPS = {
           "(start = end) and interval around the last five records is asked with both strategies and judged from the engine's own log of block times and own pool reads "
           "(errorflag:not-flagged:* / errorflag:spurious:* / errorflag:strategies-disagree:*).  An evaluation is one op line (record update, block, query, prune, dump, getSpotPrices); "
           "non-trivial = answered query or state-changing op; distinct = distinct op lines",
-  "trusted_base": ["osmomath Exp2 / LogBase2 / SigFigRound as modelled in C13 (bit-exact, analytic bounds unproved)",
+  "trusted_base": ["osmomath Exp2 / LogBase2 / SigFigRound as modelled in C13 (bit-exact; their analytic bounds are theorems of Props/C13Log, C13Exp2, C13SigFig and are composed through the twap model in Props/C10Geom)",
                    "700-bit big.Float references (harness/engines/app/bigfloat_test.go) for the geometric clauses",
                    "the pool modules' spot prices are inputs (the engine's own read of the pool at the end of the block, cross-checked against the stored record)",
                    "store keys: the model's stores are keyed by the structured (pool, denom0, denom1, time); the byte layout is covered separately: the key constructors the keeper passes to "
                    "the store are regenerated from types/keys.go as token lists (tools/extract/gen_twap_keys.go) and the key-range theorems of Props.C10 are re-checked over them; "
                    "assumed: FormatTimeString is fixed-width and order preserving, iterators follow bytes.Compare; the engine's raw-store oracle (entries classified by their decoded "
                    "values) checks the ranges on the real store with prefix-related denoms and pool ids"],
-  "assumptions": ["PARTIAL: geometric TWAP vs the true 2^(weighted mean log2), geometric min/max and reciprocity of the two quote directions are decided by the "
-                  "oracle on the explored cases only (tolerance: half a unit of the 8th significant figure [of the 8th decimal for values >= 0.1] + 2e-18 + 1e-17 relative)",
+  "assumptions": ["geometric TWAP vs the true T = 2^(weighted mean log2), min/max and reciprocity of the two quote directions are theorems over Mathlib reals (Props/C10Geom) for every "
+                  "answered query whose accumulator difference is non-zero and whose prices carrying weight are in [0, MaxSpotPrice] (zero price = one, as coded): "
+                  "|twap - T| <= (5e-8 + 1e-17) T + 2e-18 (3e-18 T + 1e-18 + 1e-36 before SigFigRound), min/max up to that bound (false without it: witness), product of the two "
+                  "directions within 2rho + rho^2 + (1+rho) alpha (T + 1/T) + alpha^2 of 1 (<= 1.1e-7 for 1e-9 <= T <= 1e9; product 0 at MaxSpotPrice: witness); the oracle's tolerance "
+                  "(half a unit of the 8th significant figure [of the 8th decimal for values >= 0.1] + 2e-18 + 1e-17 relative) is the same bound with the sharper grid form of SigFigRound; "
+                  "excluded cases = finding F14 (accumulator difference 0: all prices one, logarithms that cancel, interval inside one millisecond: answer 0; witness theorems)",
+                  "totality of the geometric strategy is a theorem RELATIVE to the arithmetic one (geom_answered_whenever_arith_answered: same endpoint records; prices in [0, MaxSpotPrice] keep the "
+                  "mean logarithm in [-60, 128], inside Exp2's domain; interval at most 2^63 ms); NOT a theorem: that the endpoint records can be interpolated at all (Dec range checks of the "
+                  "three accumulators over a realistic history) - common to both strategies, differential run",
                   "times are representable by UnixNano and block times never decrease (the second rejection branch of updateRecord, record time after block time, is unreachable "
                   "through blocks; missing most recent records / record count mismatch are unreachable through messages: only the repeated-timestamp rejection is generated)",
                   "pruning is modelled as a completed pass; the engine only compares the historical index with the model between passes"],
